@@ -119,6 +119,32 @@ theorem c08_stringify_param (arg : List Nat) :
   simp [rExpand, rExpandGo, addSubst, hne]
 
 open IgVerif.Exp in
+/-- **`__VA_ARGS__`**: `#define V(...) __VA_ARGS__` — `V(a, b, …)` is the arguments joined by
+`, `, for any number of arguments (none included) -/
+theorem c08_va_args_join (args : List (List Nat)) :
+    expandOnce [] (some 0) [95, 95, 86, 65, 95, 65, 82, 71, 83, 95, 95] args = joinArgs args := by
+  have hs : saveExpansion [] (some 0) [95, 95, 86, 65, 95, 65, 82, 71, 83, 95, 95] = [.param 0 false false true] := by decide
+  unfold expandOnce
+  rw [hs]
+  cases args with
+  | nil => simp [rExpand, rExpandGo, joinArgs]
+  | cons a as =>
+    by_cases he : (joinArgs (a :: as)).isEmpty = true
+    · have : joinArgs (a :: as) = [] := by simpa using he
+      simp [rExpand, rExpandGo, this]
+    · simp [rExpand, rExpandGo, addSubst, he]
+
+open IgVerif.Exp in
+/-- `#define S(...) #__VA_ARGS__` with at least one argument: the joined arguments, stringified -/
+theorem c08_hash_va_args (a : List Nat) (as : List (List Nat)) :
+    expandOnce [] (some 0) [35, 95, 95, 86, 65, 95, 65, 82, 71, 83, 95, 95] (a :: as) = stringify (joinArgs (a :: as)) := by
+  have hs : saveExpansion [] (some 0) [35, 95, 95, 86, 65, 95, 65, 82, 71, 83, 95, 95] = [.param 0 true false true] := by decide
+  unfold expandOnce
+  rw [hs]
+  have hne : (stringify (joinArgs (a :: as))).isEmpty = false := by simp [stringify]
+  simp [rExpand, rExpandGo, addSubst, hne]
+
+open IgVerif.Exp in
 /-- `#define ID(x) x`: `ID(a)` is `a` -/
 theorem c08_identity_param (arg : List Nat) : expandOnce [[120]] none [120] [arg] = arg := by
   have hs : saveExpansion [[120]] none [120] = [.param 0 false false true] := by decide
